@@ -111,11 +111,14 @@ Theorem C07_argmax_abs_spec : forall l,
   (forall i, (i < argmax_abs l)%nat -> Qabsq (get l i) < Qabsq (get l (argmax_abs l))).
 Proof. exact argmax_abs_spec. Qed.
 
-(* REFUTED (strict form of the convention): the code cannot flip an odd-order row whose largest
-   first-half magnitude sits at index 0 — p = 0, the tested sum is over an empty slice — so a row
-   whose whole first half is negative is returned unchanged.  Latent on the implementation: reached
-   only if the inverse iteration delivers such a row with the opposite sign (known finding
-   C07/dpss_windows/sign-odd/peak-at-edge, witnessed by stubbing tridi_inverse_iteration). *)
+(* MODEL-LEVEL OBSERVATION about the sign code (a latent gap, NOT a finding on the implementation):
+   the code cannot flip an odd-order row whose largest first-half magnitude sits at index 0 —
+   p = 0, the tested sum is over an empty slice — so a row whose whole first half is negative is
+   returned unchanged; i.e. the sign code alone does not establish the strict convention.  This
+   state is not reachable through dpss_windows' public interface in any run we found (N = 8..4096):
+   with the code's own start vector every taper already comes out of the inverse iteration with
+   the right sign.  The harness reaches it only by handing a negated inverse-iteration result back,
+   which is used for the model/code tie (K) of the flip logic and is never judged by the oracle. *)
 Lemma refute_fix_odd : fix_odd 4 [-3; -1; 1; 3] = [-3; -1; 1; 3].
 Proof. vm_compute. reflexivity. Qed.
 Theorem C07_fix_odd_peak_at_edge_refuted :
